@@ -179,6 +179,22 @@ extern "C" void vf_main() {
     never_twice();
 #endif
   }
+#elif VF_SCN == 5
+  // N = 2: fork-join ring fast path puts task i into ring i; optionally (literal) a waiter steals one task
+  // (tryExecuteNextFromRings starting at ring 1); nobody else consumes; the destructor drains both rings
+  ThreadPool* pool = new ThreadPool(2);
+  {
+    bulk_to_rings(*pool, 2, g_submitted);
+    g_submitted += 2;
+    vf_check(!pool->rings_[0].empty() && !pool->rings_[1].empty() && pool->work_.n_ == 0,
+             "harness: one task in each ring");
+#if VF_STEAL
+    size_t start = 1;
+    bool got = pool->tryExecuteNextFromRings(start);
+    vf_check(got && g_runs[1] == 1 && g_runs[0] == 0, "harness: the waiter ran the task of ring 1");
+    never_twice();
+#endif
+  }
 #endif
 
   finish(pool);
